@@ -288,14 +288,15 @@ func collDecls(b *strings.Builder, c *Coll) {
 }
 
 type printer struct {
-	p        *Program
-	site     int
-	decls    strings.Builder // top-level declarations (functions, methods)
-	pre      strings.Builder // statements before the directive
-	helper   strings.Builder // functions of the helper package ha (spelling SpImport)
-	poison   strings.Builder // Bare programs: assignments run when the first user function is entered
-	nbare    int
-	midAvail string // BareMix: the poison assignments an argument call of the current option runs
+	p            *Program
+	site         int
+	decls        strings.Builder // top-level declarations (functions, methods)
+	pre          strings.Builder // statements before the directive
+	helper       strings.Builder // functions of the helper package ha (spelling SpImport)
+	poison       strings.Builder // Bare programs: assignments run when the first user function is entered
+	nbare        int
+	hasMethodVal bool
+	midAvail     string // BareMix: the poison assignments an argument call of the current option runs
 }
 
 // wp prints an argument expression. In a Bare program the expression is bound
@@ -453,7 +454,7 @@ func (pr *printer) fnParts(f *Fn, c *Coll) (params, results, body string) {
 	switch f.Spell {
 	case SpLit, SpVar:
 		xexpr = "x"
-	case SpMethod:
+	case SpMethod, SpMethodVal:
 		xexpr = "h.x"
 	default:
 		xexpr = "rt.Find(" + strings.Join(append([]string{ctxArg}, args...), ", ") + ")"
@@ -494,6 +495,17 @@ func (pr *printer) fnExpr(f *Fn, c *Coll) string {
 	case SpMethod:
 		fmt.Fprintf(&pr.decls, "func (h *hands) F%d(%s)%s {\n%s}\n\n", f.ID, params, results, body)
 		return fmt.Sprintf("h.F%d", f.ID)
+	case SpMethodVal:
+		if !pr.hasMethodVal {
+			pr.hasMethodVal = true
+			// The method value hv.Vn copies *hv when it is evaluated - with the
+			// directive's arguments. The program overwrites *hv when the first user
+			// function is entered: a method value bound later carries late = true.
+			pr.decls.WriteString("type handsV struct {\n\tx    *rt.Exec\n\tlate bool\n}\n\n")
+			pr.pre.WriteString("\thv := &handsV{x: x}\n\tx.SetPoison(func() { *hv = handsV{x: x, late: true} })\n")
+		}
+		fmt.Fprintf(&pr.decls, "func (h handsV) V%d(%s)%s {\n\tif h.late {\n\t\th.x.NoteLate(\"the method value hv.V%d was evaluated after the first user function had started: its receiver is a copy of *hv made by then\")\n\t}\n%s}\n\n", f.ID, params, results, f.ID, body)
+		return fmt.Sprintf("hv.V%d", f.ID)
 	case SpGeneric:
 		fmt.Fprintf(&pr.decls, "func genF%d[Q any](%s)%s {\n%s}\n\n", f.ID, params, results, body)
 		return fmt.Sprintf("genF%d[int]", f.ID)
@@ -560,7 +572,7 @@ func (pr *printer) orderOpts(opts []opt) []string {
 	return out
 }
 
-var guestIdent = regexp.MustCompile(`\b(T\d+[es]?|A\d+|mkT\d+|unT\d+|E\d+|mkE\d+|unE\d+|C\d+|mkC\d+|G|hands|Run|runG|runV|topF\d+|genF\d+|resHolder|desc|concK|coeK)\b`)
+var guestIdent = regexp.MustCompile(`\b(T\d+[es]?|A\d+|mkT\d+|unT\d+|E\d+|mkE\d+|unE\d+|C\d+|mkC\d+|G|hands|handsV|Run|runG|runV|topF\d+|genF\d+|resHolder|desc|concK|coeK)\b`)
 
 // guestSource prints program g for inclusion in the file of program host: the
 // declarations of g's own file (everything after its imports) with every
